@@ -93,6 +93,11 @@ func run(pass *analysis.Pass) (any, error) {
 			continue
 		}
 
+		if types.Implements(typ, types.Universe.Lookup("error").Type().Underlying().(*types.Interface)) {
+			// fmt prefers the Error method over the String method
+			continue
+		}
+
 		if types.Implements(typ, knowledge.Interfaces["fmt.Stringer"]) {
 			replacement := &ast.CallExpr{
 				Fun: &ast.SelectorExpr{
